@@ -220,7 +220,7 @@ func c11Gen(tp *Tapes) *c11Spec {
 	if sp.Kind == "virt" || sp.Kind == "virtrel" {
 		sp.OwnMiss = g.Draw(2) == 1
 	}
-	n := 3 + g.Draw(6)
+	n := 3 + g.DrawD(6, 14)
 	kindsOf := make([]string, n)
 	kindsOf[0] = "plain"
 	for i := 1; i < n; i++ {
@@ -1047,7 +1047,7 @@ func (c11Checker) Run(tp *Tapes, opt RunOpt) *Outcome {
 		// sampled pairs of persistent faults on two different sites
 		if len(sites) >= 2 && len(out.Violations) == 0 {
 			f := tp.Fault
-			for n := 0; n < 2; n++ {
+			for n := 0; n < 2+f.DrawD(1, 12); n++ {
 				a, b := sites[f.Draw(len(sites))], sites[f.Draw(len(sites))]
 				if a == b {
 					continue
